@@ -34,6 +34,82 @@ fn rt<T: Encode + Decode + PartialEq + Debug>(kind: &str, v: &T) {
     }
 }
 
+// ---- interned handles: the wire form depends on the encode session (first occurrence in full, later ones by hash);
+// decode with a FRESH interner (a re-opened database) and with the writer's interner
+fn interner() -> (Plugin, qbice_storage::intern::Interner) {
+    let i = qbice_storage::intern::Interner::new(4, qbice_stable_hash::BuildStableHasherDefault::<qbice_stable_hash::Sip128Hasher>::default());
+    let mut p = Plugin::new();
+    p.insert(i.clone());
+    (p, i)
+}
+fn rt_interned<T: Encode + Decode>(kind: &str, v: &T, show: &dyn Fn(&T) -> String, wp: &Plugin) {
+    unsafe { COUNT += 1 };
+    let bytes = match qbice_serialize::postcard::encode(v, wp) {
+        Ok(b) => b,
+        Err(e) => report_found(kind, &show(v), &format!("encode error {e}"), "Ok"),
+    };
+    let (fresh, _keep) = interner();
+    for (which, plugin) in [("fresh interner", &fresh), ("writer's interner", wp)] {
+        let mut ext = bytes.clone();
+        ext.extend_from_slice(&[0xA5, 0x5A]);
+        let shown = show(v);
+        let r = std::panic::catch_unwind(std::panic::AssertUnwindSafe(|| {
+            let mut dec = qbice_serialize::PostcardDecoder::new(&ext[..]);
+            let r: std::io::Result<T> = qbice_serialize::Decoder::decode(&mut dec, plugin);
+            (r.map(|w| show(&w)).map_err(|e| e.to_string()), dec.into_inner().len())
+        }));
+        match r {
+            Err(_) => report_found(&format!("{kind} ({which})"), &shown, &format!("decode panicked (bytes {bytes:?})"), &shown),
+            Ok((Err(e), _)) => report_found(&format!("{kind} ({which})"), &shown, &format!("decode error {e} (bytes {bytes:?})"), &shown),
+            Ok((Ok(w), rest)) => {
+                if w != shown { report_found(&format!("{kind} ({which})"), &shown, &format!("{w} (bytes {bytes:?})"), &shown); }
+                if rest != 2 { report_found(&format!("{kind} ({which})"), &shown, &format!("decoder left {rest} bytes"), "exactly the 2 sentinel bytes"); }
+            }
+        }
+    }
+}
+fn interned_cases() {
+    use qbice_storage::intern::Interned;
+    use std::path::{Path, PathBuf};
+    std::panic::set_hook(Box::new(|_| {}));
+    for text in ["", "shared", &"y".repeat(128)] {
+        let (wp, wi) = interner();
+        let s: Interned<String> = wi.intern(text.to_string());
+        let u: Interned<str> = wi.intern_unsized::<str, _>(text.to_string());
+        let other: Interned<String> = wi.intern(format!("{text}!"));
+        rt_interned("Interned<String>", &s, &|v| format!("{:?}", &**v), &wp);
+        rt_interned("Interned<str>", &u, &|v| format!("{:?}", &**v), &wp);
+        rt_interned("Vec<Interned<String>> with repeats", &vec![s.clone(), s.clone(), other.clone(), s.clone(), other.clone()],
+            &|v| format!("{:?}", v.iter().map(|x| (**x).clone()).collect::<Vec<_>>()), &wp);
+        // equal content under DIFFERENT handle types in one session, in both orders and interleaved
+        rt_interned("(Interned<String>, Interned<str>) equal text", &(s.clone(), u.clone()), &|v| format!("({:?},{:?})", &*v.0, &*v.1), &wp);
+        rt_interned("(Interned<str>, Interned<String>) equal text", &(u.clone(), s.clone()), &|v| format!("({:?},{:?})", &*v.0, &*v.1), &wp);
+        rt_interned("(Interned<String>, Interned<str>, Interned<String>, Interned<str>)", &(s.clone(), u.clone(), s.clone(), u.clone()),
+            &|v| format!("({:?},{:?},{:?},{:?})", &*v.0, &*v.1, &*v.2, &*v.3), &wp);
+        rt_interned("Option<Interned<str>> after Interned<String>", &(s.clone(), Some(u.clone()), None::<Interned<str>>),
+            &|v| format!("({:?},{:?},{:?})", &*v.0, v.1.as_ref().map(|x| x.to_string()), v.2.as_ref().map(|x| x.to_string())), &wp);
+        let pb: Interned<PathBuf> = wi.intern(PathBuf::from(text));
+        let pa: Interned<Path> = wi.intern_unsized::<Path, _>(PathBuf::from(text));
+        rt_interned("(Interned<PathBuf>, Interned<Path>) equal path", &(pb.clone(), pa.clone()), &|v| format!("({:?},{:?})", &*v.0, &*v.1), &wp);
+        rt_interned("(Interned<Path>, Interned<PathBuf>, Interned<Path>)", &(pa.clone(), pb.clone(), pa.clone()), &|v| format!("({:?},{:?},{:?})", &*v.0, &*v.1, &*v.2), &wp);
+    }
+    for elems in [vec![], vec![1u32, 1 << 21, u32::MAX], (0..130u32).collect::<Vec<_>>()] {
+        let (wp, wi) = interner();
+        let v: Interned<Vec<u32>> = wi.intern(elems.clone());
+        let sl: Interned<[u32]> = wi.intern_unsized::<[u32], _>(elems.clone());
+        rt_interned("Interned<Vec<u32>>", &v, &|v| format!("{:?}", &**v), &wp);
+        rt_interned("Interned<[u32]>", &sl, &|v| format!("{:?}", &**v), &wp);
+        rt_interned("(Interned<Vec<u32>>, Interned<[u32]>) equal elements", &(v.clone(), sl.clone()), &|v| format!("({:?},{:?})", &*v.0, &*v.1), &wp);
+        rt_interned("(Interned<[u32]>, Interned<Vec<u32>>, Interned<[u32]>)", &(sl.clone(), v.clone(), sl.clone()), &|v| format!("({:?},{:?},{:?})", &*v.0, &*v.1, &*v.2), &wp);
+        // nested handles: the inner handle is written inside the outer one's source form
+        let inner: Interned<String> = wi.intern("in".to_string());
+        let outer: Interned<Vec<Interned<String>>> = wi.intern(vec![inner.clone(), inner.clone()]);
+        rt_interned("(Interned<Vec<Interned<String>>>, Interned<String>, same outer again)", &(outer.clone(), inner.clone(), outer.clone()),
+            &|v| format!("({:?},{:?},{:?})", v.0.iter().map(|x| x.to_string()).collect::<Vec<_>>(), &*v.1, v.2.iter().map(|x| x.to_string()).collect::<Vec<_>>()), &wp);
+    }
+    let _ = std::panic::take_hook();
+}
+
 fn nested<T: Encode + Decode + PartialEq + Debug + Clone>(kind: &str, a: &T, b: &T) {
     rt(&format!("{kind}"), a);
     rt(&format!("Option<{kind}>"), &Some(a.clone()));
@@ -212,5 +288,6 @@ fn main() {
         nested("derive Either<u32,String>", &Either::<u32, String>::L(1 << 21), &Either::<u32, String>::R("x".into()));
         nested("derive Either<u32,String>", &Either::<u32, String>::N, &Either::<u32, String>::L(0));
     }
+    interned_cases();
     report_none(unsafe { COUNT });
 }
